@@ -380,6 +380,9 @@ func (st *State) typeConstraint(v Term, t types.Type) Term {
 	if isRefLike(t) {
 		return And(Le(TInt(0), v), Le(v, st.wmNow()))
 	}
+	if _, ok := under(types.Unalias(t)).(*types.Slice); ok {
+		return And(Le(TInt(0), slArr(v)), Le(slArr(v), st.wmNow()), Le(TInt(0), slOff(v)), Le(TInt(0), slLen(v)), Le(Add(slOff(v), slLen(v)), Term{"9223372036854775807", SI}))
+	}
 	return TTrue
 }
 
@@ -495,8 +498,9 @@ func elemComp(elem types.Type, path []int) (string, string) {
 		ft := fieldTypeAt(elem, path)
 		return "E!" + typeName(elem) + "!" + fieldNameAt(elem, path), sortOf(ft)
 	}
+	// one component per element type: arrays of different Go types cannot alias
 	s := sortOf(elem)
-	return "E!" + s, s
+	return "E!" + typeName(types.Unalias(elem)), s
 }
 
 func (st *State) readField(ref Term, root types.Type, path []int) Term {
@@ -749,6 +753,18 @@ func (st *State) mkSlice(arr, off, ln Term) Term {
 	return s
 }
 
+// slIx is the backing-array index of element i of slice s. It is kept as an
+// uninterpreted application (defined equal to off+i) so that quantified facts
+// about slice elements have arithmetic-free triggers.
+func (st *State) slIx(s, i Term) Term {
+	if n, ok := litVal(i); ok && n.Sign() == 0 {
+		// common case s[0]
+	}
+	ix := UF(SI, "sl.ix", s, i)
+	st.assume(Eq(ix, Add(slOff(s), i)))
+	return ix
+}
+
 func ifTag(i Term) Term { return UF(SI, "if.tag", i) }
 func ifRef(i Term) Term { return UF(SI, "if.ref", i) }
 
@@ -771,6 +787,18 @@ func (st *State) closureID(c *CloVal) Term {
 		st.setComp(name, Sto(comp, ref, bt))
 	}
 	return ref
+}
+
+// nameBig replaces a large term by a fresh constant defined equal to it, so
+// that later terms stay small.
+func (st *State) nameBig(v Val) Val {
+	t, ok := v.(Term)
+	if !ok || len(t.S) < 160 {
+		return v
+	}
+	n := st.fresh("t", t.Sort)
+	st.assume(Eq(n, t))
+	return n
 }
 
 // ---------- misc ----------
